@@ -233,9 +233,16 @@ func RunRobust(behs [][]Step, tr *Trace, env Env, sum *Summary) {
 		touched := false
 		if !r.Timeout {
 			for _, a := range w.TS.Agents.Agents {
-				for name, m := range map[string]interface{ TryLock() bool }{"PortFwdsMtx": &a.PortFwdsMtx, "SocksCliMtx": &a.SocksCliMtx, "SocksSvrMtx": &a.SocksSvrMtx} {
-					if m.TryLock() {
+				for name, m := range map[string]interface{ TryLock() bool }{"JobQueueMtx": &a.JobQueueMtx, "PortFwdsMtx": &a.PortFwdsMtx, "SocksCliMtx": &a.SocksCliMtx, "SocksSvrMtx": &a.SocksSvrMtx} {
+					free := m.TryLock()
+					for t := 0; t < 100 && !free; t++ { // a relay goroutine may hold it for a moment; "left held" is for good
+						time.Sleep(2 * time.Millisecond)
+						free = m.TryLock()
+					}
+					if free {
 						switch name {
+						case "JobQueueMtx":
+							a.JobQueueMtx.Unlock()
 						case "PortFwdsMtx":
 							a.PortFwdsMtx.Unlock()
 						case "SocksCliMtx":
